@@ -518,7 +518,11 @@ var PowFunc = function.New(&function.Spec{
 			return cty.UnknownVal(cty.String), err
 		}
 
-		return cty.NumberFloatVal(math.Pow(num, power)), nil
+		result := math.Pow(num, power)
+		if math.IsNaN(result) {
+			return cty.UnknownVal(cty.Number), fmt.Errorf("%g raised to the power %g is not a real number", num, power)
+		}
+		return cty.NumberFloatVal(result), nil
 	},
 })
 
